@@ -191,6 +191,17 @@ def main():
             thm_axioms[t] = ax
             if not ok:
                 broken.append(f'theorem {t} depends on non-allow-listed axioms {ax}')
+    if tier == 'thorough' and rc_p == 0:
+        # independent re-check of the compiled property file and everything it depends on
+        mod = 'IL.' + cfg['props_file'][:-2].replace('/', '.')
+        rc_k, out_k, dt_k = sh(['coqchk', '-silent', '-o', '-Q', COQ, 'IL', mod], cwd=COQ, timeout=3000)
+        log.write(out_k[-4000:])
+        axs = re.findall(r'^\s+([A-Za-z_][\w.\']*)\s*$', out_k.split('Axioms:')[-1], flags=re.M) if 'Axioms:' in out_k else []
+        allowed_k = set(cfg.get('allowed_axioms', []))
+        ok_k = rc_k == 0 and all(a.split('.')[-1] in {x.split('.')[-1] for x in allowed_k} for a in axs)
+        obligations.append((f'coqchk -o {mod} ({dt_k:.0f}s; axioms: {axs if axs else "none"})', ok_k, out_k[-600:] if not ok_k else ''))
+        if not ok_k:
+            broken.append('coqchk ' + mod)
     bad = hygiene()
     obligations.append(('hygiene: no Admitted/admit/Axiom/Parameter/Conjecture/unsafe flags in coq/', not bad, '; '.join(bad[:5])))
     if bad:
